@@ -135,6 +135,17 @@ def run_traced(workload, admit, tbl, k, rate=None, rng_seed=0, logger=None):
     try:
         with trace_calls(logger, k, admit, rate):
             tracer = sys.getprofile()
+            # a sampler that draws from a generator of its own (rather than from the `random` module's shared one): seed it
+            # and record its draws the same way
+            for attr, val in list(vars(tracer).items()):
+                if isinstance(val, random.Random):
+                    val.seed(rng_seed)
+
+                    def own_randrange(*a, _real=val.randrange, **kw):
+                        v = _real(*a, **kw)
+                        draws.append(v)
+                        return v
+                    val.randrange = own_randrange
             er = EventRecorder(tracer, admit, tbl, k)
             sys.setprofile(er)
             try:
